@@ -317,16 +317,21 @@ Definition set_boot_script (v : sval) : result (option str) :=
   | SStr s => if boot_script_ok (Z.of_nat (List.length s)) boot_script_max then Ok (Some s) else Err EAssert
   end.
 
-(* ModelElement.name setter and rename (fim/user/model_element.py:69-79, 140-144) on an element whose
-   sliver class is cls and whose name in the graph is old.  When the setter caches the new value BEFORE the
-   sliver validates it (name_setter_validates_first = false, regenerated from the source), a rejected
+(* ModelElement.name setter and rename (fim/user/model_element.py rename / name setter, and the element
+   classes' set_property) on an element whose sliver class is cls and whose name in the graph is old.
+   taken = another element of the same scope already carries s (an observed input: the scope walk of
+   _check_name_unique is not modelled).  Order in the code: [cache in handle, if the setter caches first]
+   -> uniqueness test (TopologyException, if the source has it) -> sliver validation (ValueError) -> write.
+   When the setter caches the new value BEFORE set_property (name_setter_validates_first = false), a rejected
    assignment leaves the rejected string in the handle while the graph keeps the old name.
    Result: ((handle name, graph name), exception) *)
-Definition elem_set_name (cls : str) (old : str) (s : str) : (str * str) * option exn :=
-  match set_name cls (SStr s) with
-  | Ok _ => ((s, s), None)
-  | Err e => ((if name_setter_validates_first then old else s, old), Some e)
-  end.
+Definition elem_set_name (cls : str) (old : str) (s : str) (taken : bool) : (str * str) * option exn :=
+  let rejected e := ((if name_setter_validates_first then old else s, old), Some e) in
+  if name_set_checks_unique && taken then rejected ETopology
+  else match set_name cls (SStr s) with
+       | Ok _ => ((s, s), None)
+       | Err e => rejected e
+       end.
 
 (* ------------------------------------------------------------------------------------------ *)
 (* JSONData                                                                                     *)
@@ -498,13 +503,13 @@ Definition check_misc (m : misc) : bool :=
 Inductive topo :=
 | T_labels (x : lentry * lobs)
 | T_misc (m : misc)
-| T_setname (cls old s : str) (handle graph : str) (e : option exn).
+| T_setname (cls old s : str) (taken : bool) (handle graph : str) (e : option exn).
 
 Definition check_topo (t : topo) : bool :=
   match t with
   | T_labels x => check_labels x
   | T_misc m => check_misc m
-  | T_setname cls old s h g e =>
-      let '((h', g'), e') := elem_set_name cls old s in
+  | T_setname cls old s taken h g e =>
+      let '((h', g'), e') := elem_set_name cls old s taken in
       str_eqb h h' && str_eqb g g' && opt_eqb exn_eqb e e'
   end.
